@@ -776,7 +776,7 @@ class LinAnalysis:
                 if to.get("k") == "record" and p["n"] not in con:
                     obj = "P." + p["n"]
                     self.make_object(st, f, to.get("name"), obj)
-                    st.env[loc] = ObjPtr(obj)
+                    st.env[loc] = ObjPtr(obj, "", True)      # callers may pass null: only a test in the function tells
                     continue
                 if to.get("k") == "ptr" or to.get("k") == "func":
                     st.env[loc] = None
@@ -836,6 +836,11 @@ class LinAnalysis:
                 end = ptr.off + n
                 if not any(st.entails(x[0] - end) for x in ends) and len(ends) < 6:
                     st.env[k] = ends + ((end, show(e, fr.f)[:60] if isinstance(e, dict) else "", fr.f.name),)
+        if what.startswith("write") and isinstance(ptr, Ptr) and ptr.region is not None and self.track_writes and isinstance(n, Lin):
+            k = ("wrote", ptr.region.id)
+            iv = st.env.get(k, ())
+            if len(iv) < 10:
+                st.env[k] = iv + ((ptr.off, ptr.off + n),)
         if what.startswith("write") and isinstance(ptr, Ptr) and ptr.region is not None:
             ov = st.env.get(("overlay", ptr.region.id))
             if ov is not None and isinstance(n, Lin):
